@@ -8,8 +8,8 @@ Result is written to seeded/<ID>/meta.json (copied patch.diff + demo.py alongsid
 import json, os, shutil, subprocess, sys, tempfile
 ROOT = os.path.dirname(os.path.dirname(os.path.abspath(__file__)))
 pid = sys.argv[1]
-src = sys.argv[2] if len(sys.argv) > 2 else "/tmp/seedwork/out/%s" % pid
 dst = os.path.join(ROOT, "seeded", pid)
+src = sys.argv[2] if len(sys.argv) > 2 else ("/tmp/seedwork/out/%s" % pid if os.path.isdir("/tmp/seedwork/out/%s" % pid) else dst)
 
 
 def sh(cmd, **kw):
@@ -17,6 +17,8 @@ def sh(cmd, **kw):
 
 
 meta = json.load(open(os.path.join(src, "meta.json")))
+if os.path.abspath(src) == os.path.abspath(dst):  # re-run from the committed copy
+    meta = {"summary": meta.get("summary"), "needs": meta.get("needs"), "tests_run": meta.get("author_tests_run")}
 wt = tempfile.mkdtemp(prefix="vseed-", dir="/var/tmp"); os.rmdir(wt)
 res = {"applies": False}
 try:
@@ -48,7 +50,8 @@ valid = res.get("applies") and res.get("demo_unchanged_exit") == 0 and res.get("
 res["valid_seed"] = bool(valid)
 os.makedirs(dst, exist_ok=True)
 for f in ("patch.diff", "demo.py"):
-    shutil.copy(os.path.join(src, f), os.path.join(dst, f))
+    if os.path.abspath(src) != os.path.abspath(dst):
+        shutil.copy(os.path.join(src, f), os.path.join(dst, f))
 out = {"property": pid, "summary": meta.get("summary"), "needs": meta.get("needs"), "author_tests_run": meta.get("tests_run"),
        "verification": res,
        "detected": ("caught by ./vcheck %s quick tier: %s" % (pid, "; ".join(res.get("vcheck_buckets", []))[:400])) if res.get("detected") else
